@@ -74,6 +74,7 @@ type peer struct {
 	subs    map[wamp.ID]subInfo
 	callReq map[wamp.ID]string
 	joined  bool
+	gone    bool // the router closed the transport
 }
 
 type canon struct {
@@ -181,6 +182,18 @@ func (x *Exec) RunScenario(sc *Scenario) {
 
 	for _, in := range sc.Steps {
 		x.step(sc, in)
+	}
+	if sc.Epilogue {
+		hows := []string{"goodbye", "lost", "violation"}
+		n := 0
+		for _, name := range append([]string{}, x.order...) {
+			if p := x.peers[name]; p.joined && !p.dropped && !p.gone {
+				x.step(sc, Input{Op: "leave", S: name, How: hows[n%len(hows)]})
+				n++
+			}
+		}
+		x.step(sc, Input{Op: "advance", Ms: 7_200_000})
+		x.step(sc, Input{Op: "snap"})
 	}
 
 	close(x.quit)
@@ -407,7 +420,7 @@ func pubOptions(x *Exec, o Opts) wamp.Dict {
 
 func (x *Exec) step(sc *Scenario, in Input) {
 	p := x.peers[in.S]
-	live := p != nil && p.joined && !p.dropped
+	live := p != nil && p.joined && !p.dropped && !p.gone
 	skip := func() {
 		in.Op = "skip"
 		x.emit(Event{Ev: "step", Scn: sc.ID, In: in, Now: x.nowMs()})
@@ -894,6 +907,9 @@ func (x *Exec) collect(in Input) ([]SessOut, Bind) {
 		for _, s := range raw {
 			m := x.abstract(p, s)
 			so.M = append(so.M, m)
+			if m.K == "CLOSED" {
+				p.gone = true
+			}
 			switch m.K {
 			case "WELCOME":
 				if name == in.S && in.Op == "join" {
